@@ -497,6 +497,13 @@ fn gen_c12(rng: &mut Prng, seed: u64, thorough: bool) -> Trace {
         if rng.chance(1, 4) {
             reader.chunk = *rng.pick(&[1usize, 7, 33]);
         }
+        // benign stream behaviour (short reads and writes, interruptions) on otherwise untouched plans
+        if reader.fail_at.is_none() && rng.chance(1, 4) {
+            reader = ReadPlan::benign(rng);
+        }
+        if writer.fail_at.is_none() && rng.chance(1, 3) {
+            writer = WritePlan::benign(rng);
+        }
         steps.push(Step::Prove { node: 0, entry, secret, index, limit, id, ext, signal, path_len, dir_tweak, truncate, reader, writer });
     }
     // the tree moves between requests (every membership API shape, batch removals included): a request served from the
